@@ -144,8 +144,12 @@ class Cast(StrCompareMixin, pmbl.Call):
     def __getinitargs__(self):
         return (self.name, self.expression, self.kind)
 
+    def __getstate__(self):
+        # Keep the function symbol itself (``__getinitargs__`` only has its name)
+        return (self.function, self.expression, self.kind)
+
     def __setstate__(self, state):
-        # `name` and `expression` are read-only properties: rebuild from the init args
+        # `name` and `expression` are read-only properties: rebuild via the constructor
         self.__init__(*state)
 
     mapper_method = intern('map_cast')
